@@ -52,7 +52,7 @@ def gen_sched(r, seed_tag, est_steps=4000, victims=("read", "send", "print", "ma
         s["d"] = 0
         s["victim"] = r.choice(list(victims))
     s["p_stall"] = r.choice([0.0, 0.0, 0.05, 0.2])
-    s["stall_max"] = r.choice([0.002, 0.15, 0.4])
+    s["stall_max"] = r.choice([0.002, 0.15, 0.4, 0.4, 2.5])      # 2.5 s: a thread wedged for a while
     return s
 
 
